@@ -69,6 +69,13 @@ def shapes(rng, per=1):
                             f"    addi a0, a0, -1\n    blez a0, fn_done\n    {use}\nfn_done:\n    ret\n", "ok"))
     out.append(("main:\n    jal f\n    jal g\n    j h\nback:\n    li a7, 10\n    ecall\nf:\ng:\nh:\n    addi a0, a0, 1\n"
                 "    beqz a1, back\n    ret\n", "ok"))
+    # the two kinds of return with the two kinds of entry: a handler that ends in `ret`, a called
+    # function that ends in `uret`, both in one program
+    out.append(("main:\n    la t0, handler\n    csrrw zero, utvec, t0\n    li a7, 10\n    ecall\nhandler:\n"
+                "    addi sp, sp, -4\n    sw t0, 0(sp)\n    lw t0, 0(sp)\n    addi sp, sp, 4\n    ret\n", "ok"))
+    out.append(("main:\n    jal foo\n    li a7, 10\n    ecall\nfoo:\n    li a0, 1\n    uret\n", "ok"))
+    out.append(("main:\n    la t0, h\n    csrw utvec, t0\n    jal foo\n    li a7, 10\n    ecall\nfoo:\n    li a0, 1\n    uret\n"
+                "h:\n    addi s1, zero, 1\n    ret\n", "ok"))
     for t in oks:
         out.append((t, "ok"))
     rng.shuffle(out)
